@@ -356,8 +356,8 @@ for L in (0, 1, 3):
                         if r2.status == 'return':
                             back = r2.retval
                             okk = back.variant == 'Ok' and getattr(back.fields[('Ok', 0)], 'lazy', None) == 'msg'
-                            # a decompressed image larger than the limit may legitimately be refused
-                            ck.require(exf, 'frame_v2', r2.pc, z3.UGE(M, L), z3.BoolVal(okk), wit, lambda m, w: 'frame-v2-roundtrip')
+                            # whatever encode_v2 emitted must be accepted by decode_payload_v2 of the same codec
+                            ck.require(exf, 'frame_v2', r2.pc, None, z3.BoolVal(okk), wit, lambda m, w: 'frame-v2-roundtrip')
                         elif r2.status == 'panic':
                             ck.require(exf, 'frame_v2', r2.pc, None, z3.BoolVal(False), wit, lambda m, w: 'frame-panic')
                         else:
